@@ -6,7 +6,7 @@
     hcount, charge and equal bond maps;  [amap_id] = atom_map is the node id;  orders are half-units. *)
 From Coq Require Import List NArith ZArith Bool.
 From SK Require Import lib.LGraph lib.C01_GraphLemmas model.C01_Model model.C02_Model model.C01_Opts model.C01_String
-  proof.C01_Proof proof.C01_OptsProof proof.C01_StringProof proof.C01_StringHyd proof.C01_StringPipe.
+  proof.C01_Proof proof.C01_OptsProof proof.C01_StringProof proof.C01_StringHyd proof.C01_StringPipe proof.C01_StringEH.
 Import ListNotations.
 Local Open Scope Z_scope.
 
@@ -241,3 +241,24 @@ Theorem C01_rsmi_pipeline : forall (str : Type) (rd_read : str -> option rmol) (
                   geq_sel (graph_of mr') G /\ geq_sel (graph_of mp') H.
 Proof. exact rsmi_pipeline. Qed.
 Print Assumptions C01_rsmi_pipeline.
+
+(** 16. rsmi_to_its(explicit_hydrogen=True) = h_to_explicit(its, None, True) on the ITS, AS REPAIRED by /repo commit
+        61e730e (before it the product half of typesGH kept its hcount while the hydrogens were added on both sides: the
+        ITS no longer decomposed into the reaction, known_findings.d/C01.json).  For a well-formed ITS: every original
+        atom keeps all labels except that the hydrogens it has on BOTH sides (count = min(hcount, product hcount)) leave
+        hcount and both halves of typesGH; the added atoms are hydrogen atoms with fresh ids; the added bonds are (1, 1)
+        bonds with standard_order 0 to a fresh atom; every bond between original atoms is unchanged.
+        (How many hydrogens are attached to which atom is compared by the correspondence, not stated here.) *)
+Theorem C01_h_to_explicit_its : forall I : its, wf I ->
+  let J := fst (h_to_explicit_its I) in
+  let mx0 := fold_left N.max (node_ids I) 0%N in
+  (forall n a, label I n = Some a ->
+     (n <= mx0)%N /\ label J n = Some (if hx_count a <=? 0 then a else hx_dec a (hx_count a))) /\
+  (exists nn, node_ids J = node_ids I ++ map fst nn /\
+              Forall (fun p : N * inode => (mx0 < fst p)%N /\ snd p = h_inode) nn /\
+              forall p, In p nn -> In p (gnodes J)) /\
+  (exists ne, gedges J = gedges I ++ ne /\
+              Forall (fun e : N * N * iedge => let '(u, v, x) := e in (mx0 < v)%N /\ x = IE 2 2 0) ne) /\
+  (forall u v, (u <= mx0)%N -> (v <= mx0)%N -> adj J u v = adj I u v).
+Proof. exact h_to_explicit_its_spec. Qed.
+Print Assumptions C01_h_to_explicit_its.
